@@ -14,6 +14,7 @@ from rpylib.process.coupling.couplingmarkovchain import CouplingMarkovChain
 from rpylib.process.coupling.helper import create_build_finer_grid_fun
 from rpylib.process.levyprocess import LevyProcess, SimulationMaximumStep
 from rpylib.process.markovchain.markovchain import MarkovChainProcess
+from rpylib.process.markovchain.markovchainlevycopula import MarkovChainLevyCopula
 from rpylib.product.payoff import PayoffDates, PayoffOnTheFly
 from rpylib.product.product import Product
 from rpylib.product.underlying import Asian, Discretisation
@@ -29,8 +30,8 @@ RULE = ("finer: the two build_finer_grid closures (levyprocess.py, coupling/help
 NOT_PROVED = ["np.sort of the uniform offsets and np.insert / np.cumsum / np.diff kernels are trusted (the model takes sorted offsets)",
               "the scaling sqrt(dt)*sigma of the Brownian increments is an input of the model (compared at 2^-40); only the running-sum "
               "assembly is proved",
-              "the copula simulators (MarkovChainLevyCopula, CouplingProcessLevyCopula) share the closures checked here; their own "
-              "array stacking is not exercised",
+              "the Levy-copula CTMC simulator is exercised for one product date only (it raises for more, recorded); the coupled "
+              "copula simulator (CouplingProcessLevyCopula) shares the helper.py closure checked here, its own stacking is not exercised",
               "full-strength running sums / step cap are proved for the specification functions and for the code only on the inputs "
               "where they hold (one product date / last gap <= epsilon): theorems running_sums_partial, "
               "running_sums_jump_times_ctmc_partial, maxStepCode_steps_le_eps_partial; the negations are theorems "
@@ -207,7 +208,11 @@ def make_grid(desc):
 def run_sim(desc):
     """builds the simulator, drives it with the script; returns dict(times, diff, jumps, sizes (per interval, fine/coarse), sig)"""
     sim, mode, dates = desc["sim"], desc["mode"], desc["dates"]
-    model = zoo.make_levy(desc["family"], desc["params"])
+    if sim == "copula":
+        model = zoo.make_copula_model([zoo.make_levy(desc["family"], desc["params"]), zoo.make_levy(desc["family"], desc["params"])],
+                                      zoo.make_copula(desc.get("copula", "independent")))
+    else:
+        model = zoo.make_levy(desc["family"], desc["params"])
     if desc.get("asian"):
         prod = Product(payoff_underlying=Asian(Discretisation.MONTHLY), payoff=PayoffOnTheFly(lambda x: x), maturity=dates[-1])
         if mode != "fixed":
@@ -228,6 +233,15 @@ def run_sim(desc):
             p.pre_computation(1, prod)
             path = p.simulate_one_path()
             sig = [float(model.diffusion_coefficient())]
+        elif sim == "copula":
+            g = CTMCUniformGrid.create_from_fixed_nb_of_points(h=desc["h"], nb_of_points=5, dimension=2)
+            p = MarkovChainLevyCopula(levy_copula_model=model, grid=g, method=SamplingMethod.INVERSION)
+            p.nb_jump_dt = lambda dt: next(counts)
+            p.sampling.sample = lambda size: [tuple(int(v) for v in next(flat)) for _ in range(size)]
+            p.initialisation(prod, max_step_epsilon=eps)
+            p.pre_computation(1, prod)
+            path = p.simulate_one_path()
+            sig = np.asarray(p._path_simulation.diffusion_matrix, float).real.tolist()
         elif sim == "ctmc":
             g = make_grid(desc)
             p = MarkovChainProcess(model=model, method=SamplingMethod.INVERSION, grid=g)
@@ -267,6 +281,10 @@ def run_sim(desc):
     # jump sizes actually used, per product interval
     if sim == "direct":
         out["sizes"] = [[[float(x) for x in iv] for iv in desc["incs"]]]
+    elif sim == "copula":
+        o = g.origin_coordinate
+        vals = [[[float(v) for v in g[o + tuple(int(x) for x in i)]] for i in iv] for iv in desc["incs"]]
+        out["sizes"] = [[[v[c] for v in iv] for iv in vals] for c in range(2)]
     else:
         grid = g
         o = grid.origin_coordinate
@@ -277,6 +295,22 @@ def run_sim(desc):
             it = iter(coarse_log)
             out["sizes"] = [fine, [[next(it) for _ in iv] for iv in desc["incs"]]]
     return out
+
+
+def scaled_rows(out, dts):
+    """per output row, the scaled Brownian increments sqrt(dt_k) * (sigma z)_k of the consumed normals (None: wrong count)"""
+    n = len(dts)
+    sq = np.sqrt(np.asarray(dts, float))
+    if out["sig"] and isinstance(out["sig"][0], list):           # copula: diffusion matrix times a (dim, n) block of normals
+        D = np.array(out["sig"], float)
+        if len(out["normals"]) != D.shape[0] * n:
+            return None
+        Z = np.array(out["normals"], float).reshape(D.shape[0], n)
+        return [list(r) for r in (sq * (D @ Z))]
+    if len(out["normals"]) != n:
+        return None
+    z = np.array(out["normals"], float)
+    return [list(sq * sg * z) for sg in out["sig"]]
 
 
 def expected_paths(desc, out):
@@ -294,9 +328,8 @@ def expected_paths(desc, out):
                 us = sorted(desc["uniforms"][k])
                 ev += [(dates[k] + (dates[k + 1] - dates[k]) * u, s) for u, s in zip(us, iv)]
         exp_j.append([math.fsum(s for (tt, s) in ev if tt <= t) for t in times])
-    dts = np.diff(np.array(times))
-    z = np.array(out["normals"][:len(dts)])
-    exp_d = [[0.0] + np.cumsum(np.sqrt(dts) * sg * z).tolist() for sg in out["sig"]] if len(z) == len(dts) else None
+    rows = scaled_rows(out, np.diff(np.array(times)))
+    exp_d = [[0.0] + np.cumsum(r).tolist() for r in rows] if rows is not None else None
     return exp_j, exp_d
 
 
@@ -324,7 +357,7 @@ def probe_sim(ctx, desc):
     times, diff, jumps = out["times"], out["diff"], out["jumps"]
     dates = out["dates"]
     T = dates[-1]
-    ncomp = 2 if sim == "coupled" else 1
+    ncomp = len(out["sizes"])
     # ---- C first (its verdict tells whether a known-faulty output still is the recorded faulty output)
     mirrors = lean_compare(ctx, desc, out, cls)
     # ---- S: the property
@@ -372,9 +405,9 @@ def lean_compare(ctx, desc, out, cls):
     dts = np.diff(np.array(times))
     ok = True
     comps = []
+    wrows = scaled_rows(out, dts)
     for c, sizes in enumerate(out["sizes"]):
-        z = np.array(out["normals"][:len(dts)])
-        wv = (np.sqrt(dts) * out["sig"][c] * z).tolist() if len(z) == len(dts) else []
+        wv = wrows[c] if wrows is not None else []
         us = [sorted(u) for u in desc["uniforms"][:n_dates]]
         if mode == "fixed":
             ans = ctx.lean(f"fixed {'code' if sim == 'direct' else 'ctmc'} {wl(dates)} {wll(sizes)} {wl(wv)}")
@@ -425,12 +458,17 @@ def gen_sim(rng, sim=None, mode=None, n_dates=None):
     h = rng.choice([0.125, 0.25])
     if sim == "direct":
         incs = [[rng.randint(-16, 16) / 16 for _ in range(c)] for c in counts]
+    elif sim == "copula":
+        cells = [(a, b) for a in range(-2, 3) for b in range(-2, 3) if (a, b) != (0, 0)]
+        incs = [[list(rng.choice(cells)) for _ in range(c)] for c in counts]
     else:
         hi = 8 if sim == "coupled" else 4
         incs = [[rng.choice([i for i in range(-hi, hi + 1) if i != 0]) for _ in range(c)] for c in counts]
     uniforms = [[u / 64 for u in rng.sample(range(1, 64), c)] for c in counts] if mode != "fixed" else [[] for _ in counts]
     desc = dict(sim=sim, mode=mode, dates=dates, counts=counts, incs=incs, uniforms=uniforms, zseed=rng.randrange(10 ** 6),
                 cu=[rng.random() for _ in range(8)], family=fam, params=params, h=h)
+    if sim == "copula":
+        desc["copula"] = rng.choice(["independent", "clayton"])
     if mode == "maxstep":
         desc["eps"] = rng.choice([T / 32, T / 16, 3 * T / 32, T / 8, T / 4, T / 2, T, 2 * T])
     return desc
@@ -438,9 +476,9 @@ def gen_sim(rng, sim=None, mode=None, n_dates=None):
 
 def run(ctx):
     rng = ctx.rng
-    for _ in range(ctx.n(150, 2500)):
+    for _ in range(ctx.n(400, 4000)):
         probe_finer(ctx, gen_finer(rng, "direct"))
-    for _ in range(ctx.n(150, 2500)):
+    for _ in range(ctx.n(400, 4000)):
         probe_finer(ctx, gen_finer(rng, "coupled"))
     # directed reproductions of the two recorded defects (the Lean witnesses running_sums_counterexample / last_gap_uncapped)
     hem = dict(sigma=0.25, p=0.4, eta1=10.0, eta2=5.0, intensity=3.0)
@@ -453,8 +491,13 @@ def run(ctx):
     probe_sim(ctx, dict(base, sim="direct", mode="fixed", asian=True, dates=[0.0, 0.25 / 3, 0.5 / 3, 0.25], counts=[1, 2, 0],
                         incs=[[0.5], [0.25, -0.125], []], uniforms=[[], [], []]))
     for sim in ("direct", "ctmc", "coupled"):
-        for _ in range(ctx.n(100, 1500)):
+        for _ in range(ctx.n(250, 3000)):
             probe_sim(ctx, gen_sim(rng, sim=sim))
+    # the Levy-copula CTMC simulator: its own stacking of the d coordinates (one product date; two dates raise, reproduced once)
+    probe_sim(ctx, dict(base, sim="copula", mode="jump_times", dates=[0.0, 0.5, 1.0], counts=[1, 1], incs=[[[1, 0]], [[0, 1]]],
+                        uniforms=[[0.5], [0.5]], copula="independent"))
+    for _ in range(ctx.n(40, 500)):
+        probe_sim(ctx, gen_sim(rng, sim="copula", n_dates=1))
 
 
 def replay(ctx, rec):
